@@ -7,17 +7,27 @@ pub mod c05;
 pub mod c06;
 pub mod c07;
 pub mod c08;
+#[cfg(target_arch = "x86_64")]
 pub mod paging;
+#[cfg(target_arch = "x86_64")]
 pub mod c11;
+#[cfg(target_arch = "x86_64")]
 pub mod c12;
+#[cfg(target_arch = "x86_64")]
 pub mod c13;
+#[cfg(target_arch = "x86_64")]
 pub mod c14;
+#[cfg(target_arch = "x86_64")]
 pub mod c15;
+#[cfg(target_arch = "x86_64")]
 pub mod c16;
+#[cfg(target_arch = "x86_64")]
 pub mod c17;
+#[cfg(target_arch = "x86_64")]
 pub mod c18;
+#[cfg(target_arch = "x86_64")]
 pub mod c19;
-#[cfg(not(miri))]
+#[cfg(all(not(miri), target_arch = "x86_64"))]
 pub mod c20;
 
 /// positive controls for the sanitizer passes: a deliberate 1-byte access just past a frame, just before it, and
@@ -58,20 +68,33 @@ pub fn run(a: &Args, rep: &mut Report) -> bool {
         "c06" => c06::run(a, rep),
         "c07" => c07::run(a, rep),
         "c08" => c08::run(a, rep),
+        #[cfg(target_arch = "x86_64")]
         "c01" => paging::run(a, rep, "c01"),
+        #[cfg(target_arch = "x86_64")]
         "c02" => paging::run(a, rep, "c02"),
+        #[cfg(target_arch = "x86_64")]
         "c09" => paging::run(a, rep, "c09"),
+        #[cfg(target_arch = "x86_64")]
         "c10" => paging::run(a, rep, "c10"),
+        #[cfg(target_arch = "x86_64")]
         "c11" => c11::run(a, rep),
+        #[cfg(target_arch = "x86_64")]
         "c12" => c12::run(a, rep),
+        #[cfg(target_arch = "x86_64")]
         "c13" => c13::run(a, rep),
+        #[cfg(target_arch = "x86_64")]
         "c14" => c14::run(a, rep),
+        #[cfg(target_arch = "x86_64")]
         "c15" => c15::run(a, rep),
+        #[cfg(target_arch = "x86_64")]
         "c16" => c16::run(a, rep),
+        #[cfg(target_arch = "x86_64")]
         "c17" => c17::run(a, rep),
+        #[cfg(target_arch = "x86_64")]
         "c18" => c18::run(a, rep),
+        #[cfg(target_arch = "x86_64")]
         "c19" => c19::run(a, rep),
-        #[cfg(not(miri))]
+        #[cfg(all(not(miri), target_arch = "x86_64"))]
         "c20" => c20::run(a, rep),
         _ => return false,
     }
